@@ -3,6 +3,7 @@
 package gcc
 
 import (
+	"sync/atomic"
 	"sync"
 	"errors"
 	"fmt"
@@ -52,11 +53,15 @@ func vfGccNewDriver(sc *vfGccScript, lg *vfGccLog) (*vfGccDriver, error) {
 		leaky, _ = bwe.pacer.(*LeakyBucketPacer)
 	}
 	var feeding sync.RWMutex // read-held by every WriteRTCP call in progress
+	var cbFirst atomic.Bool
 	bwe.OnTargetBitrateChange(func(v int) {
 		// an observer that asks the estimator from inside its callback (the value may already be a newer one)
 		_ = bwe.GetTargetBitrate()
 		_ = bwe.GetStats()
 		lg.cb(v)
+		if sc.CbHold > 0 && cbFirst.CompareAndSwap(false, true) {
+			time.Sleep(time.Duration(sc.CbHold) * time.Millisecond)
+		}
 		if sc.CbWait { // ... and that is not done before the feedback calls in progress have returned
 			feeding.Lock()
 			feeding.Unlock() //nolint:staticcheck // waiting is the point
